@@ -1228,6 +1228,9 @@ def conditional_store(fn, stores, slot_id, stop=None):
                     s0 = H.peel(s_, refs=False)
                     if (s0.get("k") == "let" and "els" in s0 and "init" in s0 and on_slot(s0["init"])) or (s0.get("k") == "if" and on_slot(s0["cond"])):
                         continue        # `let Some(x) = slot.pop() else { break };` / `if slot.is_some() { .. }`: a test of the slot itself
+                    i0 = H.peel(s0["init"], refs=False) if s0.get("k") == "let" and "init" in s0 else s0
+                    if i0.get("k") == "match" and on_slot(i0["scrut"]) and not any("guard" in arm for arm in i0["arms"]):
+                        continue        # `let x = match slot.pop() { Some(e) => e, None => break };`: the same test, spelled as a match
                     for r in U.early_exits(s_):
                         if True:
                             conds = [H.render(c)[:60] for kind, c, pol in H.path_conditions(fn.root, r) if kind in ("if", "after-exit")]
